@@ -30,6 +30,9 @@ def run_cost(sd, x, kT_assign=None, types=None):
     s = G.build_system(sd)
     if kT_assign is not None: s.kT = kT_assign
     p = s.createPRISM()
+    # the System goes on to the next state point of a scan (all objects are created first, evaluated later): the object already created is a snapshot
+    for t in s.types: s.density[t] = s.density[t] * 1.7 + 0.013
+    s.kT = 7.7
     with np.errstate(all='ignore'):
         y = p.cost(np.array(x, dtype=float))
     n = sd['n']
